@@ -621,10 +621,16 @@ class ASTListener(ModelicaListener):
         # (ComponentRef) object until we can fill it.
         clause.type.__dict__.update(self.ast[ctx.type_specifier()].__dict__)
         if ctx.array_subscripts() is not None:
+            default_dimensions = clause.dimensions
             clause.dimensions = [self.ast[ctx.array_subscripts()]]
             for sym in self.comp_clause.symbol_list:
                 s = self.class_node.symbols[sym.name]
-                s.dimensions = clause.dimensions
+                if s.dimensions is default_dimensions:
+                    s.dimensions = clause.dimensions
+                else:
+                    # "Real[3] b[2]" declares a 2 x 3 array: the declarator's own
+                    # subscripts come first, then the clause's
+                    s.dimensions = s.dimensions + clause.dimensions
 
         # We make sure that all references to the objects are unique per
         # symbol making copies. Note that if there is only one symbol in the
